@@ -310,10 +310,10 @@ func (in *Interp) Assert(c *Term, msg string) {
 	in.solver.SetTimeout(in.obligTimeoutMs)
 	in.stats.ObligationsQ++
 	notc := in.tt.Not(c)
-	if in.obligLog != nil {
-		in.obligLog(append(append([]*Term{}, in.pc...), notc))
-	}
 	r, m := in.solver.CheckWithModel(notc)
+	if in.obligLog != nil {
+		in.obligLog(append(append([]*Term{}, in.pc...), notc), r)
+	}
 	switch r {
 	case Unsat:
 		in.stats.ObligationsU++
